@@ -1,8 +1,8 @@
 (* Extraction for the C12 correspondence driver. ExtrOcamlBasic only; Z/N stay datatypes. *)
 From Coq Require Import Extraction ExtrOcamlBasic ZArith NArith.
-From GoSecs Require Import Alias.Heap Alias.Once.
+From GoSecs Require Import Alias.Heap Alias.Codec Alias.Once.
 Extraction Language OCaml.
 Extraction "c12_model.ml"
   Z.add Z.mul Z.opp Z.sub Z.div_eucl Z.of_N Z.to_N N.add N.mul N.div_eucl Z.eqb Z.ltb
-  init step run obs obs_all is_owned
+  init step run obs obs_all is_owned cinit cstep crun
   oinit exec orun all_same.
